@@ -253,3 +253,134 @@ func VerifC02Replication() {
 	}
 	vCover("done")
 }
+
+// VerifC02EpochHistory: the leader-epoch history of one log against an
+// independent model, through the operations that shape it: a replica becomes
+// leader (NewLeaderEpoch with a larger epoch, possibly several times without
+// appending in between - idle terms), the leader appends, a follower appends a
+// replicated message of a (possibly newer) epoch, the log is truncated at a
+// symbolic offset (reconciliation), the log is closed and reopened. After every
+// operation LastLeaderEpoch is the newest epoch that began, and for every epoch
+// q LastOffsetForLeaderEpoch(q) is where the first epoch greater than q began -
+// what a leader's answer to a reconciling follower is computed from.
+func VerifC02EpochHistory() {
+	dir := vTempDir()
+	seg := vNondetInt64("segbytes")
+	vAssume(seg >= 40)
+	vAssume(seg <= 200)
+	l, err := New(vOpts(dir, seg))
+	vAssert(err == nil, "New succeeds")
+	type ep struct {
+		epoch uint64
+		start int64
+	}
+	var hist []ep    // epochs that began, in order, with the offset at which they began
+	var msgEp []uint64 // leader epoch of every message in the log
+	cur := uint64(0) // the epoch messages are currently written in
+	top := uint64(0) // the largest epoch number used so far
+	ts := int64(0)
+	steps := vParam("steps", 4)
+	for s := 0; s < steps; s++ {
+		switch vChoose(5) {
+		case 0: // elected: a new, larger epoch begins at the log end
+			top += 1 + uint64(vChoose(2))
+			cur = top
+			vAssert(l.NewLeaderEpoch(cur) == nil, "NewLeaderEpoch succeeds")
+			hist = append(hist, ep{cur, int64(len(msgEp))})
+			vCover("elected")
+		case 1: // the leader appends in its epoch
+			if cur == 0 {
+				return
+			}
+			ts++
+			_, err := l.Append([]*Message{{Value: []byte{1}, Timestamp: ts, LeaderEpoch: cur, MagicByte: 2}})
+			vAssert(err == nil, "Append succeeds")
+			msgEp = append(msgEp, cur)
+			vCover("append")
+		case 2: // a follower appends a replicated message of the current or a newer epoch
+			e := cur
+			if vChoose(2) == 1 || e == 0 {
+				top += 1 + uint64(vChoose(2))
+				e = top
+			}
+			ts++
+			ms, _, err := newMessageSetFromProto(int64(len(msgEp)), 0, []*Message{{Value: []byte{2}, Timestamp: ts, LeaderEpoch: e, MagicByte: 2}}, false)
+			vAssert(err == nil, "message set encodes")
+			_, err = l.AppendMessageSet(ms)
+			vAssert(err == nil, "AppendMessageSet succeeds")
+			if e != cur {
+				hist = append(hist, ep{e, int64(len(msgEp))})
+				cur = e
+			}
+			msgEp = append(msgEp, e)
+			vCover("replicated")
+		case 3: // truncation at t: offsets >= t go, and with them the epochs that began at or after t
+			t := vNondetInt64("trunc")
+			vAssume(t >= 0)
+			vAssume(t <= int64(len(msgEp)))
+			t = vConcretize64(t)
+			vAssert(l.Truncate(t) == nil, "Truncate succeeds")
+			if t == int64(len(msgEp)) {
+				// truncation at the log end removes nothing, also no (idle) epoch that began there
+				vCover("truncate")
+				break
+			}
+			msgEp = msgEp[:t]
+			k := 0
+			for _, h := range hist {
+				if h.start < t {
+					hist[k] = h
+					k++
+				}
+			}
+			hist = hist[:k]
+			cur = 0
+			if len(hist) > 0 {
+				cur = hist[len(hist)-1].epoch
+			}
+			vCover("truncate")
+		case 4: // clean restart
+			vAssert(l.Close() == nil, "Close succeeds")
+			l, err = New(vOpts(dir, seg))
+			vAssert(err == nil, "New succeeds on an existing log")
+			// a reopened log keeps the epochs of the messages it holds; an idle
+			// epoch that began at the log end without a message is forgotten (the
+			// replica's leadership ended with the restart; its next term gets a
+			// larger epoch)
+			k := 0
+			for _, h := range hist {
+				if h.start < int64(len(msgEp)) {
+					hist[k] = h
+					k++
+				}
+			}
+			hist = hist[:k]
+			cur = 0
+			if len(hist) > 0 {
+				cur = hist[len(hist)-1].epoch
+			}
+			vCover("reopen")
+		}
+		last := uint64(0)
+		if len(hist) > 0 {
+			last = hist[len(hist)-1].epoch
+		}
+		vAssert(l.LastLeaderEpoch() == last, "LastLeaderEpoch is the newest epoch that began")
+		for q := uint64(0); q <= top+1; q++ {
+			// documented contract of commitLog.LastOffsetForLeaderEpoch: the start
+			// offset of the first epoch larger than q, or the newest offset if no
+			// larger epoch began (partition.handleLeaderOffsetRequest turns the
+			// former into "the last offset of epoch q"; VerifC02Failovers runs it)
+			want := int64(len(msgEp)) - 1
+			for _, h := range hist {
+				if h.epoch > q {
+					want = h.start
+					break
+				}
+			}
+			got := l.LastOffsetForLeaderEpoch(q)
+			vAssert(got == want, "LastOffsetForLeaderEpoch(q) is where the first epoch greater than q began (or the log end)")
+		}
+	}
+	vCover("done")
+}
